@@ -496,4 +496,165 @@ theorem ruleKey_eq_reqKey (cfg : Cfg) (u : Bytes) (hb : IsBytes u) (hwf : WFurl 
   unfold sanitize
   cases (joinParams ((paramsOf u).map reqParam)).isEmpty <;> simp
 
+/-! ### marketing parameters -/
+
+/-- the query of `u` (empty when there is no `?`). -/
+def queryOf (u : Bytes) : Bytes := ((splitFirst 63 u).2).getD []
+
+theorem parseQuery_nil : parseQuery [] = [] := by decide
+
+theorem paramsOf_queryOf (u : Bytes) : paramsOf u = btCollect (parseQuery (queryOf u)) := by
+  unfold paramsOf queryOf
+  cases (splitFirst 63 u).2 with
+  | none => simp [parseQuery_nil, btCollect]
+  | some q => rfl
+
+/-- the non-empty `&`-pieces of a query whose decoded name is not an ignored marketing parameter. -/
+def keptPieces (cfg : Cfg) (q : Bytes) : List Bytes :=
+  ((pieces 38 q).filter (fun s => !s.isEmpty)).filter (fun s => !isMarketing cfg (parsePair s).1)
+
+theorem filter_paramsOf (cfg : Cfg) (u : Bytes) :
+    (paramsOf u).filter (notMarketing cfg) = btCollect ((keptPieces cfg (queryOf u)).map parsePair) := by
+  rw [paramsOf_queryOf]
+  have := filter_btCollect (fun k => !isMarketing cfg k) (parseQuery (queryOf u))
+  unfold notMarketing
+  rw [this]
+  congr 1
+  unfold parseQuery keptPieces
+  rw [List.filter_map]
+  rfl
+
+theorem keptOf_congr (cfg : Cfg) {u u' : Bytes}
+    (h : keptPieces cfg (queryOf u) = keptPieces cfg (queryOf u')) :
+    keptOf cfg (paramsOf u) = keptOf cfg (paramsOf u') := by
+  unfold keptOf
+  rw [filter_paramsOf, filter_paramsOf, h]
+
+theorem joinParams_eq_nil {ps : List Bytes} : joinParams ps = [] ↔ ∀ p ∈ ps, p = [] := by
+  unfold joinParams
+  constructor
+  · intro h
+    -- once the accumulator is non-empty it stays non-empty
+    have key : ∀ (l : List Bytes) (acc : Bytes), l.foldl pushParam acc = [] → acc = [] ∧ ∀ p ∈ l, p = [] := by
+      intro l
+      induction l with
+      | nil => intro acc h; exact ⟨h, fun _ hp => nomatch hp⟩
+      | cons p rest ih =>
+        intro acc h
+        rw [List.foldl_cons] at h
+        obtain ⟨h1, h2⟩ := ih _ h
+        have hacc : acc = [] := by
+          cases acc with
+          | nil => rfl
+          | cons a as => simp [pushParam] at h1
+        subst hacc
+        have hp : p = [] := by simpa [pushParam] using h1
+        refine ⟨rfl, ?_⟩
+        intro x hx
+        rcases List.mem_cons.mp hx with e | e
+        · rw [e, hp]
+        · exact h2 x e
+    exact (key ps [] h).2
+  · intro h
+    induction ps with
+    | nil => rfl
+    | cons p rest ih =>
+      rw [List.foldl_cons]
+      have hp : p = [] := h p (by simp)
+      subst hp
+      exact ih (fun x hx => h x (List.mem_cons_of_mem _ hx))
+
+theorem skippedStr_ne_nil (cfg : Cfg) (m : Map) :
+    skippedStr cfg m ≠ [] ↔ ∃ kv ∈ m, isMarketing cfg kv.1 = true ∧ kv ≠ ([], []) := by
+  unfold skippedStr
+  rw [Ne, joinParams_eq_nil]
+  constructor
+  · intro h
+    apply Classical.byContradiction
+    intro hn
+    apply h
+    intro p hp
+    obtain ⟨kv, hkv, rfl⟩ := List.mem_map.mp hp
+    have hkv' := List.mem_filter.mp hkv
+    apply Classical.byContradiction
+    intro hne
+    exact hn ⟨kv, hkv'.1, hkv'.2, fun e => hne (reqParam_eq_nil.mpr e)⟩
+  · rintro ⟨kv, hkv, hmk, hne⟩ h
+    exact hne (reqParam_eq_nil.mp (h _ (List.mem_map.mpr ⟨kv, List.mem_filter.mpr ⟨hkv, hmk⟩, rfl⟩)))
+
+theorem skippedStr_of_not_ignore (cfg : Cfg) (h : cfg.ignoreMarketing = false) (m : Map) :
+    skippedStr cfg m = [] := by
+  unfold skippedStr
+  have : m.filter (fun kv => isMarketing cfg kv.1) = [] := by
+    apply List.filter_eq_nil_iff.mpr
+    intro kv _
+    simp [isMarketing, h]
+  rw [this]; rfl
+
+/-! ### appending a parameter -/
+
+theorem pieces_cons_sep (c : Nat) (b : Bytes) : pieces c (c :: b) = [] :: pieces c b := by
+  simp [pieces, splitAll]
+
+theorem pieces_cons_ne {c x : Nat} (h : x ≠ c) (b : Bytes) :
+    pieces c (x :: b) = (x :: (splitAll c b).1) :: (splitAll c b).2 := by
+  simp [pieces, splitAll, h]
+
+theorem pieces_append_sep (c : Nat) (a b : Bytes) : pieces c (a ++ c :: b) = pieces c a ++ pieces c b := by
+  induction a with
+  | nil => simp [pieces_cons_sep]; simp [pieces, splitAll]
+  | cons x a ih =>
+    by_cases hx : x = c
+    · subst hx
+      rw [List.cons_append, pieces_cons_sep, pieces_cons_sep, ih]; rfl
+    · rw [List.cons_append, pieces_cons_ne hx, pieces_cons_ne hx]
+      have : pieces c (a ++ c :: b) = pieces c a ++ pieces c b := ih
+      unfold pieces at this
+      simp only [List.cons_append, List.cons.injEq] at this
+      rw [this.1, this.2]; rfl
+
+theorem pieces_of_not_mem {c : Nat} {s : Bytes} (h : c ∉ s) : pieces c s = [s] := by
+  have := splitAll_append_of_not_mem c s [] h
+  simp only [List.append_nil] at this
+  simp [pieces, this, splitAll]
+
+theorem splitFirst_snd_none {c : Nat} {u : Bytes} : (splitFirst c u).2 = none ↔ c ∉ u := by
+  induction u with
+  | nil => simp [splitFirst]
+  | cons b r ih =>
+    by_cases hb : b = c
+    · simp [splitFirst, hb]
+    · have hcb : ¬ c = b := fun e => hb e.symm
+      simp [splitFirst, hb, ih, hcb]
+
+theorem splitFirst_of_not_mem {c : Nat} {u : Bytes} (h : c ∉ u) : splitFirst c u = (u, none) := by
+  have := splitFirst_append_of_not_mem c u [] h
+  simpa [splitFirst] using this
+
+theorem splitFirst_append_some {c : Nat} {u Q : Bytes} (h : (splitFirst c u).2 = some Q) (t : Bytes) :
+    splitFirst c (u ++ t) = ((splitFirst c u).1, some (Q ++ t)) := by
+  induction u with
+  | nil => simp [splitFirst] at h
+  | cons b r ih =>
+    by_cases hb : b = c
+    · simp [splitFirst, hb] at h ⊢; exact h
+    · simp [splitFirst, hb] at h ⊢
+      rw [ih h]; simp
+
+theorem keptPieces_append (cfg : Cfg) (q seg : Bytes) :
+    keptPieces cfg (q ++ 38 :: seg) = keptPieces cfg q ++ keptPieces cfg seg := by
+  unfold keptPieces
+  rw [pieces_append_sep, List.filter_append, List.filter_append]
+
+theorem keptPieces_marketing (cfg : Cfg) {seg : Bytes} (h38 : 38 ∉ seg)
+    (hmk : isMarketing cfg (parsePair seg).1 = true) : keptPieces cfg seg = [] := by
+  unfold keptPieces
+  rw [pieces_of_not_mem h38]
+  cases seg with
+  | nil => rfl
+  | cons b r => simp [List.filter_cons, hmk]
+
+theorem keptPieces_nil (cfg : Cfg) : keptPieces cfg [] = [] := by
+  simp [keptPieces, pieces, splitAll]
+
 end Rio.Url
